@@ -2,16 +2,18 @@
 C12 — trace views END TO END: OTLP ingest boundary, result paging, the queries behind the views.
 Core Lean only (linked into the `oracle_C12` executable).
 
-Mirrors, quirks included:
-  * pkg/otlp/traces.go            `ProcessTraceIngest` (l. 73-121: the loop over ResourceSpans / ScopeSpans / Spans,
-                                   the per-resource `service` variable, the span counters),
-                                   `spanToJson` (l. 134-180), `HandleTraceIngestionResponse` (l. 222-273)
-    pkg/otlp/utils.go             `extractAnyValue` (l. 74-111: which AnyValue kinds are an error)
+Mirrors the code WITH the repairs build/patches/c12-1 … c12-6 (the behaviour before a repair is kept as `…Old`):
+  * pkg/otlp/traces.go            `ProcessTraceIngest` (the loop over ResourceSpans / ScopeSpans / Spans, the
+                                   per-resource `service` variable, the span counters),
+                                   `spanToJson` (attribute columns first, then the fixed fields; duration 0 for a
+                                   span that ends before it starts), `HandleTraceIngestionResponse`
+    pkg/otlp/utils.go             `extractAnyValue` (which AnyValue kinds are an error; nil = no value)
   * pkg/segment/tracing/handler/tracehandler.go
-        `ProcessGanttChartRequest`   (l. 960-1081: the paging loop, the per-record checks in their order)
-        `ProcessSearchTracesRequest` (l. 76-276: the three SPL queries as functions of the stored records)
-        `MakeTracesDependancyGraph`  (l. 690-712: one request with the default page of 100 records)
-        `ProcessRedTracesIngest`     (l. 475-525: the paging loop)
+        `ProcessGanttChartRequest`   (the paging loop, the per-record checks in their order)
+        `ProcessSearchTracesRequest` (the three SPL queries as functions of the stored records; pages of 50 trace
+                                      ids out of the buckets ordered by trace id)
+        `MakeTracesDependancyGraph`  (paging loop, stop at the first empty page)
+        `ProcessRedTracesIngest`     (paging loop, stop at the first empty page)
     their folds / `BuildSpanTree` are the kernels of Model/Trace.lean, reused here.
 
 Conventions
@@ -22,7 +24,8 @@ Conventions
   * a stored record (`Rec`) carries the fields the views read; a field the document did not have is `none`
     (documents posted to index `traces` by another protocol; OTLP documents always have all of them).
   * numbers ≥ 2^63 are stored as float64 (`storedNum`); 2^64 − d with d ≤ 1024 rounds to 2^64, which no longer
-    fits the uint64 fields the handlers unmarshal into (`poison`).
+    fits the uint64 fields the handlers unmarshal into (`poison`).  Since the repair of the duration no OTLP span
+    produces such a record (`Props.C12.otlp_record_never_poison`); documents of other protocols still can.
   * the search engine is a parameter of the paging loops: it answers `(from, size)` with
     `(recs.drop from).take size` for ONE list `recs` (newest ingest request first).  That the real engine does so
     is checked by the correspondence suite `tracee2e`, not proved.
@@ -64,6 +67,8 @@ deriving Repr, DecidableEq, Inhabited
 /-- value of a field of the JSON document handed to the segment writer -/
 inductive JVal
   | str (s : String) | num (i : Int) | bool (b : Bool) | half (k : Nat) | arr | kvl
+  /-- JSON null (an attribute without a value) -/
+  | null
 deriving Repr, DecidableEq, Inhabited
 
 /-- `Status.Code.String()` / "Unknown" -/
@@ -85,7 +90,8 @@ def getKV {β : Type} (m : List (String × β)) (k : String) : Option β :=
   | [] => none
   | (k', v) :: r => if k' == k then some v else getKV r k
 
-/-- `extractAnyValue`: bytes values and AnyValues without a value are an error -/
+/-- `extractAnyValue`: bytes values and AnyValues whose value is unset are an error; a KeyValue that carries no
+AnyValue at all (nil pointer) gives the nil value -/
 def attrVal : AVal → Option JVal
   | .str s => some (.str s)
   | .int i => some (.num i)
@@ -95,24 +101,44 @@ def attrVal : AVal → Option JVal
   | .kvl => some .kvl
   | .bytes => none
   | .empty => none
-  | .noValue => none          -- never reached: `extractAnyValue(nil)` panics, see `spanPanics`
+  | .noValue => some .null
 
-/-- `extractAnyValue(nil)` dereferences the nil pointer.  Attributes are converted in order and the first one that
-cannot be converted decides: error return (bytes, AnyValue without a value) or panic (no AnyValue). -/
-def spanPanics (sp : OSpan) : Bool :=
-  match sp.attrs.find? (fun kv => (attrVal kv.2).isNone) with
+/-- BEFORE the repair `extractAnyValue(nil)` dereferenced the nil pointer.  Attributes are converted in order and
+the first one that cannot be converted decided: error return (bytes, unset value) or panic (no AnyValue). -/
+def spanPanicsOld (sp : OSpan) : Bool :=
+  match sp.attrs.find? (fun kv => kv.2 == .noValue || (attrVal kv.2).isNone) with
   | some (_, .noValue) => true
   | _ => false
 
+/-- `span.EndTimeUnixNano - span.StartTimeUnixNano`, 0 for a span that ends before it starts -/
+def durationOf (sp : OSpan) : Nat := if sp.end_ ≥ sp.start then sp.end_ - sp.start else 0
+
+/-- the fixed fields of the stored document -/
 def baseDoc (sp : OSpan) (service : String) : List (String × JVal) :=
+  [("trace_id", .str sp.trace), ("span_id", .str sp.sid), ("parent_span_id", .str sp.pid), ("service", .str service),
+   ("name", .str sp.name), ("start_time", .num sp.start), ("end_time", .num sp.end_),
+   ("duration", .num (durationOf sp)), ("status", .str (statusName sp.status))]
+
+/-- one column per attribute key; `none` = error (the span is counted as failed) -/
+def attrDoc (sp : OSpan) : Option (List (String × JVal)) :=
+  sp.attrs.foldlM (fun m kv => (attrVal kv.2).map (setKV m kv.1)) []
+
+def setAll (m d : List (String × JVal)) : List (String × JVal) := d.foldl (fun m kv => setKV m kv.1 kv.2) m
+
+/-- `spanToJson(span, service)`: the attribute columns first, then the fixed fields (an attribute named like a
+fixed field is overwritten by the field).  `none` = error. -/
+def spanToJson (sp : OSpan) (service : String) : Option (List (String × JVal)) :=
+  (attrDoc sp).map (fun m => setAll m (baseDoc sp service))
+
+/-- BEFORE the repairs: the unsigned difference wrapped for end < start … -/
+def baseDocOld (sp : OSpan) (service : String) : List (String × JVal) :=
   [("trace_id", .str sp.trace), ("span_id", .str sp.sid), ("parent_span_id", .str sp.pid), ("service", .str service),
    ("name", .str sp.name), ("start_time", .num sp.start), ("end_time", .num sp.end_),
    ("duration", .num (wsub sp.end_ sp.start)), ("status", .str (statusName sp.status))]
 
-/-- `spanToJson(span, service)`: the fixed fields first, then one column per attribute key — `result[key] = value`
-OVERWRITES a fixed field of the same name.  `none` = error (the span is counted as failed). -/
-def spanToJson (sp : OSpan) (service : String) : Option (List (String × JVal)) :=
-  sp.attrs.foldlM (fun m kv => (attrVal kv.2).map (setKV m kv.1)) (baseDoc sp service)
+/-- … and the fixed fields were written first, so that `result[key] = value` of an attribute REPLACED them -/
+def spanToJsonOld (sp : OSpan) (service : String) : Option (List (String × JVal)) :=
+  sp.attrs.foldlM (fun m kv => (attrVal kv.2).map (setKV m kv.1)) (baseDocOld sp service)
 
 /-! ## stored records -/
 
@@ -156,6 +182,7 @@ def tagText (k : String) : JVal → List (String × String)
   | .half n => [(k, toString n ++ ".5")]
   | .arr => [(k ++ ".0", "x"), (k ++ ".1", "1")]
   | .kvl => [(k ++ ".q", "r")]
+  | .null => []
 
 def tagLe (a b : String × String) : Bool := a.1 < b.1 || (a.1 == b.1 && a.2 ≤ b.2)
 
@@ -221,12 +248,12 @@ inductive Req
   | raw (evs : List Rec)
 deriving Repr, Inhabited
 
-/-- the request reaches a span whose conversion panics: ProcessTraceIngest does not return (nothing of the request
-is handed to the segment writer, which is called after the loop; no recover() between here and the server) -/
-def reqPanics (rs : List ResSpans) : Bool := rs.any (fun r => r.scopes.any (fun sc => sc.any spanPanics))
+/-- BEFORE the repair of `extractAnyValue`: the request reached a span whose conversion panicked and
+ProcessTraceIngest did not return (nothing of the request was handed to the segment writer) -/
+def reqPanicsOld (rs : List ResSpans) : Bool := rs.any (fun r => r.scopes.any (fun sc => sc.any spanPanicsOld))
 
 def recsOfReq : Req → List Rec
-  | .otlp rs => if reqPanics rs then [] else (ingest rs).docs.map docToRec
+  | .otlp rs => (ingest rs).docs.map docToRec
   | .raw evs => evs
 
 /-- the order in which a `*` search returns the records: newest ingest request first, ingest order within
@@ -348,9 +375,9 @@ structure TraceRow where
   end_ : Nat
 deriving Repr, DecidableEq
 
-/-- one trace id of the page: `.error` = the request answers 500 (more than one root start / end time),
-`.ok none` = not listed, `.ok (some row)` = listed -/
-def searchRow (recs : List Rec) (t : String) : Except Unit (Option TraceRow) :=
+/-- BEFORE the repair — one trace id of the page: `.error` = the whole request answered 500 (more than one root
+start / end time), `.ok none` = not listed, `.ok (some row)` = listed -/
+def searchRowOld (recs : List Rec) (t : String) : Except Unit (Option TraceRow) :=
   let rs := ofTrace recs t
   let roots := rs.filter (fun r => r.pid == some "")
   if roots.isEmpty then .ok none else
@@ -366,39 +393,33 @@ def searchRow (recs : List Rec) (t : String) : Except Unit (Option TraceRow) :=
     | _, _ => .ok none
   | _, _ => .error ()
 
-inductive SearchOut
-  | multiPage
-  | err500
-  | ok (rows : List TraceRow)
-deriving Repr, DecidableEq
+/-- one trace id of the page: `none` = not listed (no root record, root records that do not agree on ONE start
+time, end time, service and operation, or root outside the window), `some row` = listed -/
+def searchRow (recs : List Rec) (t : String) : Option TraceRow :=
+  match searchRowOld recs t with
+  | .ok r => r
+  | .error _ => none
 
 def traceIds (recs : List Rec) : List String := sortedDistinct (recs.map (·.trace))
 
-/-- the loop over the measure results of the second query: any trace with more than one root start / end time
-makes the whole request answer 500; traces without root / outside the window / with ambiguous root service or
-operation are skipped -/
-def searchRows (recs : List Rec) : List String → Except Unit (List TraceRow)
-  | [] => .ok []
-  | t :: ts =>
-    match searchRow recs t with
-    | .error e => .error e
-    | .ok none => searchRows recs ts
-    | .ok (some row) =>
-      match searchRows recs ts with
-      | .error e => .error e
-      | .ok rows => .ok (row :: rows)
+/-- the trace ids of page `p` (1-based): the group-by buckets ordered by trace id, 50 per page -/
+def pageIds (recs : List Rec) (p : Nat) : List String :=
+  ((traceIds recs).drop ((p - 1) * tracePageLimit)).take tracePageLimit
 
-/-- page 1 of the listing for the search text `*` (more than one page of trace ids: not modelled, the order of
-the group-by buckets decides what a page holds) -/
-def search (recs : List Rec) : SearchOut :=
-  let ids := traceIds recs
-  if ids.length > tracePageLimit then .multiPage else
-  match searchRows recs ids with
-  | .error _ => .err500
-  | .ok rows => .ok rows
+/-- page `p` of the listing for the search text `*` -/
+def searchPage (recs : List Rec) (p : Nat) : List TraceRow := (pageIds recs p).filterMap (searchRow recs)
+
+/-- the whole listing -/
+def searchAll (recs : List Rec) : List TraceRow := (traceIds recs).filterMap (searchRow recs)
+
+/-- BEFORE the repair a page answered 500 as soon as one of its traces had two root start / end times -/
+def searchPageOld (recs : List Rec) (p : Nat) : Option (List TraceRow) :=
+  if (pageIds recs p).any (fun t => match searchRowOld recs t with | .error _ => true | .ok _ => false) then none
+  else some (searchPage recs p)
 
 /-! ## MakeTracesDependancyGraph / ProcessRedTracesIngest -/
 
+/-- page of a search request without `size` (what the one-request reader saw before the repair) -/
 def defaultPage : Nat := 100
 
 def idTable (recs : List Rec) : List String :=
@@ -416,26 +437,26 @@ def toSpans (recs : List Rec) : List Span :=
       start := 0, end_ := r.dur, error := r.status == some "STATUS_CODE_ERROR" })
 
 inductive DepOut
-  | beyondFirstPage
   | nil
   | ok (m : List ((String × String) × Nat))
 deriving Repr, DecidableEq
 
-/-- the fold of MakeTracesDependancyGraph over the records of ONE response (`nil`: the response could not be
-unmarshalled into `[]*structs.Span`) -/
+/-- the fold of MakeTracesDependancyGraph over the collected spans (`nil`: a response could not be unmarshalled
+into `[]*structs.Span`) -/
 def depOf (recs : List Rec) : DepOut :=
   if recs.any poison then .nil
   else
     let sv := svcTable recs
     .ok ((depGraph (toSpans recs)).map (fun e => ((sv.getD e.1.1 "", sv.getD e.1.2 ""), e.2)))
 
-/-- ONE search request without `size` returns the first `page` records only -/
-def depFirstPage (page : Nat) (recs : List Rec) : DepOut := depOf (recs.take page)
+/-- MakeTracesDependancyGraph: pages through the spans of the window (stops at the first empty page) and folds
+over all of them -/
+def dep (page : Nat) (recs : List Rec) : DepOut :=
+  if recs.any poison then .nil
+  else depOf (pageLoop (fun acc r => acc ++ [r]) page page false recs (recs.length + 1) 0 [])
 
-/-- the answer of MakeTracesDependancyGraph as far as it is determined by the SET of stored records (beyond one
-page the answer depends on which records the engine returns first) -/
-def dep (recs : List Rec) : DepOut :=
-  if recs.length > defaultPage then .beyondFirstPage else depFirstPage defaultPage recs
+/-- BEFORE the repair: ONE search request without `size`, i.e. the first `page` (100) records only -/
+def depFirstPageOld (page : Nat) (recs : List Rec) : DepOut := depOf (recs.take page)
 
 /-- the spans ProcessRedTracesIngest collects; `none`: a page could not be unmarshalled (the function returns) -/
 def redCollect (page : Nat) (recs : List Rec) : Option (List Rec) :=
